@@ -143,7 +143,8 @@ impl<'a> BlockFilterHashesProcess<'a> {
                 }
             };
             let end_number = start_number + block_filter_hashes.len() as BlockNumber - 1;
-            if end_number > next_cached_check_point_number {
+            // (a response which ends exactly at the next check point has to end with its value, too)
+            if end_number >= next_cached_check_point_number {
                 let diff = end_number - next_cached_check_point_number;
                 let index = block_filter_hashes.len() - (diff as usize) - 1;
                 let new_hash = &block_filter_hashes[index];
